@@ -424,6 +424,118 @@ class Grammar:
             lits(e[1][0][1])
         return out
 
+    # ---- what the grammar accepts, independent of how it is factored -----------------
+    def _sure_start(self, e, stack=()):
+        """(sure, maybe): characters c such that every / some input starting with c is matched by e (for look-ahead bodies)"""
+        k = e[0]
+        if k == "str":
+            if len(e[1]) == 1:
+                return {e[1]}, set()
+            return set(), ({e[1][0]} if e[1] else set())
+        if k == "insens":
+            cs = {e[1][0].lower(), e[1][0].upper()} if e[1] else set()
+            return (cs, set()) if len(e[1]) == 1 else (set(), cs)
+        if k == "range":
+            return {chr(c) for c in range(ord(e[1]), min(ord(e[2]), 127) + 1)}, set()
+        if k == "choice":
+            sure, maybe = set(), set()
+            for x in e[1]:
+                s2, m2 = self._sure_start(x, stack)
+                sure |= s2
+                maybe |= m2
+            return sure, maybe - sure
+        if k == "seq":
+            items = [x for x in e[1]]
+            if not items:
+                return set(), set()
+            s2, m2 = self._sure_start(items[0], stack)
+            rest_nullable = all(self.first(x)[1] for x in items[1:])
+            return (s2, m2) if rest_nullable else (set(), s2 | m2)
+        if k in ("plus",) or (k == "rep" and e[2] >= 1):
+            return self._sure_start(e[1], stack)
+        if k == "id":
+            q = e[1]
+            if q == "NEWLINE":
+                return {"\n", "\r"}, set()
+            if q in self._CLASSES:
+                return set(self._CLASSES[q]), set()
+            if q in self.rules and q not in stack:
+                return self._sure_start(self.rules[q][1], stack + (q,))
+        f = self.first(e)[0]
+        return set(), {c for c in f if c != "\x00"}
+
+    def lead_excluded(self, e, stack=()):
+        """(sure, maybe): characters that cannot / may not be able to start a match of e because of its leading negative look-aheads"""
+        k = e[0]
+        if k == "seq":
+            sure, maybe = set(), set()
+            for x in e[1]:
+                if x[0] == "neg":
+                    s2, m2 = self._sure_start(x[1])
+                    sure |= s2
+                    maybe |= m2
+                    continue
+                if x[0] == "pos":
+                    continue
+                s2, m2 = self.lead_excluded(x, stack)
+                sure |= s2
+                maybe |= m2
+                break
+            return sure, maybe - sure
+        if k == "choice":
+            parts = [self.lead_excluded(x, stack) for x in e[1]]
+            sure = set.intersection(*[p[0] for p in parts]) if parts else set()
+            maybe = set().union(*[p[0] | p[1] for p in parts]) - sure if parts else set()
+            return sure, maybe
+        if k in ("plus",) or (k == "rep" and e[2] >= 1):
+            return self.lead_excluded(e[1], stack)
+        if k == "id" and e[1] in self.rules and e[1] not in stack:
+            return self.lead_excluded(self.rules[e[1]][1], stack + (e[1],))
+        return set(), set()
+
+    def trailing_excluded(self, e, stack=()):
+        """For every way a match of e can end: (sure, maybe, zero_width) — the characters that may not follow because of the negative
+        look-aheads that close that path (`zero_width`: the whole of e consumed nothing on it, so the run continues to the left)"""
+        k = e[0]
+        if k == "neg":
+            s2, m2 = self._sure_start(e[1])
+            return [(frozenset(s2), frozenset(m2), True)]
+        if k == "pos":
+            return [(frozenset(), frozenset(), True)]
+        if k == "seq":
+            acc = [(frozenset(), frozenset(), True)]
+            for x in reversed(e[1]):
+                if not any(z for _, _, z in acc):
+                    break
+                new = set()
+                for s1, m1, z in acc:
+                    if not z:
+                        new.add((s1, m1, False))
+                        continue
+                    for s2, m2, z2 in self.trailing_excluded(x, stack):
+                        new.add((s1 | s2, m1 | m2, z2))
+                acc = list(new)
+            return acc
+        if k == "choice":
+            out = set()
+            for x in e[1]:
+                out |= set(self.trailing_excluded(x, stack))
+            return list(out)
+        if k in ("opt", "star"):
+            return list(set(self.trailing_excluded(e[1], stack)) | {(frozenset(), frozenset(), True)})
+        if k in ("plus", "rep"):
+            out = set(self.trailing_excluded(e[1], stack))
+            if k == "rep" and e[2] == 0:
+                out.add((frozenset(), frozenset(), True))
+            return list(out)
+        if k == "id":
+            q = e[1]
+            if q in ("SOI", "EOI"):
+                return [(frozenset(), frozenset(), True)]
+            if q in self.rules and q not in stack:
+                return self.trailing_excluded(self.rules[q][1], stack + (q,))
+        return [(frozenset(), frozenset(), False)]
+
     # ---- PEG ordered-choice analysis ---------------------------------------------
     _CLASSES = {
         "ASCII_DIGIT": "0123456789", "ASCII_NONZERO_DIGIT": "123456789", "ASCII_BIN_DIGIT": "01", "ASCII_OCT_DIGIT": "01234567",
